@@ -316,8 +316,8 @@ def _run(src, lean_dir):
 
 MODEL_FILES = ('Splipy/Model/Tensor.lean', 'Splipy/Model/Object.lean', 'Splipy/Model/Reparam.lean',
                'Splipy/Model/Refine.lean', 'Splipy/Model/WellFormed.lean', 'Splipy/Model/Basis.lean',
-               'Splipy/Model/BasisOps.lean', 'Splipy/Model/LinAlg.lean', 'Splipy/Lemmas/C06Tensor.lean',
-               'Splipy/Lemmas/TensorEval.lean')
+               'Splipy/Model/BasisOps.lean', 'Splipy/Model/LinAlg.lean', 'Splipy/Model/AffineOps.lean',
+               'Splipy/Model/RationalDeriv.lean', 'Splipy/Lemmas/C06Tensor.lean', 'Splipy/Lemmas/TensorEval.lean')
 
 
 def _sources(sp):
